@@ -397,6 +397,53 @@ Definition flac_step (f : list Z) (o : flac_op) : list Z :=
   | OpDelete => match flac_delete f with Ok f' => f' | Raise _ => f end
   end.
 
+(* ------------------------------------------------------------------ sessions: a live object next to the file *)
+(* FLAC.delete ends with self.tags.clear(): the tags object stays in metadata_blocks with its vendor and no comments,
+   the other comment blocks leave the list *)
+Definition vc_cleared (d : list Z) : list Z := ztake (4 + le_decode (ztake 4 d)) d ++ [0; 0; 0; 0].
+Fixpoint clear_tags (bs : list block) : list block :=
+  match bs with
+  | [] => []
+  | b :: r => if is_vcb b then mkB 4 (vc_cleared (bdata b)) (bovf b) :: filter (fun x => negb (is_vcb x)) r
+              else b :: clear_tags r
+  end.
+(* the file and the FLAC instance the caller keeps (None: no instance; the next operation loads one) *)
+Record sess := mkSess { ss_file : list Z; ss_obj : option (list block) }.
+(* SSave (Some t): the tags object (created by add_tags at the end of the list if the file had none) holds t;
+   SSave None: the object's blocks are written as they are;
+   SAddTags vendor: FLAC.add_tags() on an object without tags appends an empty VCFLACDict (with mutagen's vendor
+   string) to metadata_blocks -- from then on delete() acts (and strips the padding) even if the file has no tags *)
+Inductive sess_op := SReload | SAddTags (vendor : list Z) | SSave (t : option vc) (cb : option (Z -> Z -> Z)) | SDelete | SModDelete.
+Definition add_tags (bs : list block) (vendor : list Z) : list block :=
+  if existsb is_vcb bs || negb (zlen vendor <? U32) then bs else bs ++ [mkB 4 (vc_render (mkVC vendor [])) (-1)].
+Definition sess_open (f : list Z) : option (list block) := match flac_open f with Ok bs => Some bs | Raise _ => None end.
+Definition sess_step (s : sess) (o : sess_op) : sess :=
+  let f := ss_file s in
+  let ob := match o with
+            | SReload => sess_open f
+            | _ => match ss_obj s with Some bs => Some bs | None => sess_open f end end in
+  match o with
+  | SReload => mkSess f ob
+  | SAddTags vendor => mkSess f (match ob with Some bs => Some (add_tags bs vendor) | None => None end)
+  | SModDelete => match flac_delete f with Ok f' => mkSess f' None | Raise _ => mkSess f None end
+  | SSave t cb =>
+    match ob with
+    | None => mkSess f None
+    | Some bs =>
+      match flac_save_obj f bs t (mkOpts cb false) with
+      | Ok f' => mkSess f' (Some (match t with Some t => set_vc bs (vc_render t) | None => bs end))
+      | Raise _ => mkSess f None end
+    end
+  | SDelete =>
+    match ob with
+    | None => mkSess f None
+    | Some bs =>
+      match flac_delete_obj f bs with
+      | Ok f' => mkSess f' (Some (clear_tags bs))
+      | Raise _ => mkSess f None end
+    end
+  end.
+
 (* ------------------------------------------------------------------ measurements and the builder *)
 Definition flac_padding (s : flac) : Z := fold_right (fun b a => (if is_pad b then zlen (bdata b) else 0) + a) 0 (fblocks s).
 Definition foreign_blocks (bs : list block) : list block := filter (fun b => negb (is_vcb b) && negb (is_pad b)) bs.
@@ -413,4 +460,4 @@ Definition cb_const (n : Z) : Z -> Z -> Z := fun _ _ => n.
 Definition cb_keep : Z -> Z -> Z := fun p _ => Z.max p 0.
 Definition cb_default : Z -> Z -> Z := get_default_padding.
 (* EXTRACT: vc_render vc_parse vc_write flac_parse flac_load flac_wf flac_open flac_save flac_save_obj flac_delete
-   flac_delete_obj flac_build flac_padding cb_const cb_keep cb_default mkOpts *)
+   flac_delete_obj flac_build flac_padding cb_const cb_keep cb_default mkOpts sess_step *)
